@@ -31,6 +31,7 @@ pub fn fld(name: &str, lo: u32, w: u32, ty: FieldTy, access: Access) -> Field {
         arg_order: 0,
                 opt_path: 0,
                 huge: None,
+                zero_pad: false,
     }
 }
 
@@ -241,7 +242,7 @@ pub fn sys_lists(tier: Tier) -> Vec<Layout> {
                             r.swap(0, n - 1);
                         }
                     }
-                    let f = Field { name: "l".into(), kw_bit: false, list: true, ranges: r, array: None, ty: ty.clone(), access: Access::RW, arg_order: 0, opt_path: 0, huge: None };
+                    let f = Field { name: "l".into(), kw_bit: false, list: true, ranges: r, array: None, ty: ty.clone(), access: Access::RW, arg_order: 0, opt_path: 0, huge: None, zero_pad: false };
                     let mut l = lay(b, vec![f]);
                     if let Some(e) = en {
                         l.enums.push(e.clone());
@@ -298,6 +299,7 @@ pub fn sys_lists(tier: Tier) -> Vec<Layout> {
                                 arg_order: 0,
                                 opt_path: 0,
                 huge: None,
+                zero_pad: false,
                             };
                             out.push(lay(b, vec![f]));
                         }
@@ -320,6 +322,7 @@ pub fn sys_lists(tier: Tier) -> Vec<Layout> {
             arg_order: 0,
             opt_path: 0,
             huge: None,
+                zero_pad: false,
         };
         out.push(lay(
             b,
@@ -377,6 +380,7 @@ pub fn sys_signed(tier: Tier) -> Vec<Layout> {
                         arg_order: 0,
                         opt_path: 0,
                         huge: None,
+                zero_pad: false,
                     };
                     out.push(lay(b, vec![f]));
                 }
@@ -393,6 +397,7 @@ pub fn sys_signed(tier: Tier) -> Vec<Layout> {
                     arg_order: 0,
                 opt_path: 0,
                 huge: None,
+                zero_pad: false,
                 };
                 out.push(lay(b, vec![f]));
             }
@@ -588,16 +593,33 @@ pub fn corpus(prop: &str, tier: Tier, seed: u64) -> Vec<(usize, Layout)> {
                     match form {
                         0 => {}
                         1 | 2 => {
-                            l.default = Some(DefaultDecl { value: val, named_const: false, radix: [10u8, 16, 2][k % 3] });
+                            l.default = Some(DefaultDecl { value: val, named_const: false, radix: [10u8, 16, 2][k % 3], const_name: None });
                             l.default_colon = form == 2;
                         }
                         _ => {
-                            l.default = Some(DefaultDecl { value: val, named_const: true, radix: 16 });
+                            l.default = Some(DefaultDecl { value: val, named_const: true, radix: 16, const_name: None });
                             l.default_colon = form == 4;
                         }
                     }
                     v.push(l);
                 }
+            }
+            // default literals whose *text* could be mistaken for something else when reparsed: hex digits that
+            // look like a radix prefix or a type suffix (0xb0, 0x1f32, 0xbeef64), `_` separators, and a named
+            // constant called MAX
+            for b in [16u32, 32, 64, 128, 24, 100] {
+                for (val, radix) in [(0xbu128, 16u8), (0xb0, 16), (0xbbb, 16), (0x1f32, 16), (0xbeef64, 16), (0xf64, 16), (0x0b000b, 17), (0b1011, 3), (0o17, 8)] {
+                    if val > mask(b) {
+                        continue;
+                    }
+                    let mut l = lay(b, vec![fld("f", 0, 4, uty(4), Access::RW)]);
+                    l.default = Some(DefaultDecl { value: val, named_const: false, radix, const_name: None });
+                    l.default_colon = val % 2 == 0;
+                    v.push(l);
+                }
+                let mut l = lay(b, vec![fld("f", 0, 4, uty(4), Access::RW)]);
+                l.default = Some(DefaultDecl { value: 0x1234 & mask(b), named_const: true, radix: 16, const_name: Some("MAX".into()) });
+                v.push(l);
             }
         }
         "C11" => {
@@ -659,6 +681,33 @@ pub fn corpus(prop: &str, tier: Tier, seed: u64) -> Vec<(usize, Layout)> {
             v.extend(random(&p, seed, 1, nrand / 2));
             p.overlap = true;
             v.extend(random(&p, seed, 2, nrand / 2));
+            // lists that name a bit twice (accepted by the macro; what a write stores is left open, but every
+            // operation must stay total and independent of the profile), reaching the top bit of the base
+            for b in [8u32, 16, 32, 64, 128, 7, 24, 65] {
+                let mk = |rs: Vec<(u32, u32)>, ty: FieldTy, arr: Option<ArrayDecl>| Field {
+                    name: "dup".into(),
+                    kw_bit: false,
+                    list: true,
+                    ranges: rs.iter().map(|(lo, hi)| Rng { lo: *lo, hi: *hi, short: false }).collect(),
+                    array: arr,
+                    ty,
+                    access: Access::RW,
+                    arg_order: 0,
+                    opt_path: 0,
+                    huge: None,
+                    zero_pad: false,
+                };
+                if b >= 8 {
+                    v.push(lay(b, vec![mk(vec![(b - 4, b - 1), (b - 2, b - 1)], uty(6), None)]));
+                    v.push(lay(b, vec![mk(vec![(b - 2, b - 1), (b - 4, b - 1)], uty(6), None)]));
+                    v.push(lay(b, vec![mk(vec![(0, 3), (2, 5)], uty(8), None), fld("hi", b - 2, 2, uty(2), Access::RW)]));
+                    v.push(lay(b, vec![mk(vec![(0, b / 2 - 1), (0, b / 2 - 1)], uty(b / 2 * 2), None)]));
+                }
+                if b >= 16 {
+                    v.push(lay(b, vec![mk(vec![(0, 1), (1, 2)], uty(4), Some(ArrayDecl { count: 2, stride: Some(b - 3), colon: false }))]));
+                    v.push(lay(b, vec![mk(vec![(0, 3), (2, 5)], FieldTy::INat { bits: 8 }, None)]));
+                }
+            }
         }
         "C19" => {
             let mut p = prof([3, 5, 3, 3, 2, 2, 2], [5, 0, 2, 0]);
@@ -671,6 +720,21 @@ pub fn corpus(prop: &str, tier: Tier, seed: u64) -> Vec<(usize, Layout)> {
             p.access = AccessMode::AllR;
             p.overlap = false;
             v.extend(random(&p, seed, 2, nrand / 2));
+            // a second readable view of exactly the same bits (alias under another name / as raw integer)
+            let n0 = v.len();
+            for k in (0..n0).step_by(3) {
+                let mut l = v[k].clone();
+                if let Some(f) = l.fields.first().cloned() {
+                    let w = f.width();
+                    let mut a = f.clone();
+                    a.name = format!("alias_{}", f.name.trim_start_matches('_'));
+                    if !matches!(a.ty, FieldTy::Bool) && w >= 1 {
+                        a.ty = uty(w);
+                    }
+                    l.fields.push(a);
+                    v.push(l);
+                }
+            }
         }
         _ => {
             v.extend(random(&Profile::general(), seed, 1, nrand));
